@@ -149,6 +149,17 @@ def check_case(ctx, case):
                 ctx.check("dtype_independent", e <= tolr * nref, case, dtype=lab, err=e)
             except Exception as ex:
                 ctx.check("dtype_independent", False, case, key=f"dtype_raises/{lab}/{type(ex).__name__}", exc=str(ex)[:150])
+    # callers may edit what they are given (unit conversions in place): results must be fresh objects
+    if case["seed"] % 3 == 0:
+        ctx.fresh_outputs("voigt_to_elastic_tensor", T.voigt_to_elastic_tensor, C, case=case)
+        ctx.fresh_outputs("elastic_tensor_to_voigt", T.elastic_tensor_to_voigt, t, case=case)
+        ctx.fresh_outputs("voigt_matrix_to_vector", T.voigt_matrix_to_vector, C, case=case)
+        ctx.fresh_outputs("voigt_vector_to_matrix", T.voigt_vector_to_matrix, v, case=case)
+        ctx.fresh_outputs("voigt_decompose", T.voigt_decompose, C, case=case)
+        ctx.fresh_outputs("rotate", T.rotate, t, R1, case=case)
+        for nm in ("mono_project", "ortho_project", "tetr_project", "hex_project"):
+            ctx.fresh_outputs(nm, getattr(T, nm), v, case=case)
+        ctx.check("inputs_not_mutated_by_fresh_calls", bool(np.array_equal(t, to4(C))), case)
     # polar decomposition + invariants on a hostile 3x3
     M = matrix3(rng, case["mat"])
     if case["seed"] % 2:
